@@ -20,6 +20,10 @@ def last_seg(ty):
     ty = ty.strip()
     ty = re.sub(r"^&(?:'\w+ )?(?:mut )?", '', ty)
     if ty.startswith('dyn '): ty = ty[4:]
+    if ty and ty[0] == '[' and ty.endswith(']'):
+        inner = ty[1:-1]; tail = ''
+        if '; ' in inner: inner, tail = inner.rsplit('; ', 1); tail = '; ' + tail
+        return '[' + last_seg(inner) + tail + ']'
     if ty and (ty[0] in '[(' ): return ty
     m = re.match(r'[\w:]+', ty)
     return m.group(0).split('::')[-1] if m else ty
@@ -38,9 +42,12 @@ class CrateInfo:
         self.enums = {}           # EnumName -> [variants]  (name collisions -> None)
         self.structs = {}         # StructName -> [field names]
         self.enum_discr = {}      # EnumName -> {variant: explicit discriminant}
-        self._build_impls()
+        self.inherent_hdr = {}    # inherent impl fn name -> self type text of its impl header
+        self.aliases_full = {}    # non-generic alias -> full aliased type text
+        self.aliases = {}         # type alias name -> last segment of the aliased type
         for d in src_dirs:
             self._scan_items(os.path.join(repo_root, d))
+        self._build_impls()
 
     # ---- source access ----
     def src_lines(self, p):
@@ -86,7 +93,7 @@ class CrateInfo:
                         lst = self.trait_impls.setdefault(('str', 'From', meth), [])
                         if ent not in lst: lst.append(ent)
                     continue
-                trait = {'EnumString': 'FromStr', 'AsRefStr': 'AsRef', 'Display': 'Display'}.get(trait, trait)
+                trait = {'EnumString': 'FromStr', 'AsRefStr': 'AsRef', 'Display': 'Display', 'TokenSpan': 'HasTokenSpan'}.get(trait, trait)
                 self.trait_impls.setdefault((ty, trait, meth), []).append(('', [], ty, name))
                 continue
             hdr = line[C - 1:]
@@ -112,9 +119,10 @@ class CrateInfo:
                 tname = strip_generics(trait)
                 tbase = tname.split('<')[0].split('::')[-1]
                 targs = trait[trait.index('<') + 1:trait.rindex('>')] if '<' in trait else ''
-                self.trait_impls.setdefault((last_seg(ty), tbase, meth), []).append((targs, generics, ty, name))
+                self.trait_impls.setdefault((self.aliases.get(last_seg(ty), last_seg(ty)), tbase, meth), []).append((targs, generics, ty, name))
             else:
-                self.inherent.setdefault((last_seg(hdr), meth), []).append(name)
+                self.inherent.setdefault((self.aliases.get(last_seg(hdr), last_seg(hdr)), meth), []).append(name)
+                self.inherent_hdr[name] = hdr
 
     @staticmethod
     def _top_for(hdr):
@@ -136,6 +144,11 @@ class CrateInfo:
         src = open(path, encoding='utf-8').read()
         # blank out comments, strings and char literals, keep offsets
         clean = self._blank(src)
+        for m in re.finditer(r'\btype\s+(\w+)\s*(<[^=;]*>)?\s*=\s*([^;{]+);', clean):
+            tgt = last_seg(m.group(3))
+            if tgt and tgt[0].isupper() and tgt != m.group(1):
+                self.aliases[m.group(1)] = tgt
+                if not m.group(2): self.aliases_full[m.group(1)] = m.group(3).strip()
         for m in re.finditer(r'\b(enum|struct)\s+(\w+)\s*(<[^{;(]*?>)?\s*(where[^{;]*)?\{', clean):
             kind, name = m.group(1), m.group(2)
             i = m.end(); dpt = 1; j = i
